@@ -323,6 +323,14 @@ func cmdCheck(args []string) int {
 		}
 	}
 	sort.Strings(as)
+	// one line per assumption (an extern contract is recorded both where it is used and by its origin)
+	uniq := as[:0]
+	for i, a := range as {
+		if i == 0 || a != as[i-1] {
+			uniq = append(uniq, a)
+		}
+	}
+	as = uniq
 	var kfList []string
 	for k := range knownHit {
 		kfList = append(kfList, k)
